@@ -99,6 +99,8 @@ def execute(case, phase, prefix, seed):
     ch = grid.Chooser(prefix)
     g = grid.Grid(case["S"], chooser=ch, client_kw=dict(k=case["k"], n=case["n"], happy=case["happy"], max_segment_size=case["seg"]))
     g.sched.batch = bool(case.get("batch"))     # turn granularity, see grid.Sched.batch
+    if case.get("cpu"):
+        g.sched.cpu_events()     # thread-pool work completes as a scheduled event, see grid.Sched.cpu_events
     viol = []
     obs = {}
     try:
@@ -221,6 +223,8 @@ def run(tier, seed):
     res.merge(common.pmap(_chunk_a, [dict(c, batch=True) for c in A[::3]], (seed,), chunks=min(len(A), 256)))
     nA = res.counts.get("executions", 0)
     rb.merge(common.pmap(_chunk_b, [(dict(c, batch=True), ph) for (c, ph) in B], (seed, d_bound - 1), chunks=len(B)))
+    # thread-pool work (encode / decode) completes as a scheduled event that answers can overtake
+    rb.merge(common.pmap(_chunk_b, [(dict(c, cpu=True), ph) for (c, ph) in B], (seed, d_bound - 1), chunks=len(B)))
     res.merge(rb)
     cov = {
         "states": res.counts.get("executions", 0),
@@ -232,7 +236,7 @@ def run(tier, seed):
         "deviation_bound_completed": d_bound,
         "distinct_configurations": len(res.distinct),
         "capped_trees": rb.counts.get("capped", 0),
-        "rule": "A: every configuration of configs(tier) under the default schedule; B: for each sub-grid configuration and each phase (upload / download) every schedule with <= %d deviations; both again with several answers delivered per reactor turn (every third configuration; one deviation less); states = complete executions (each is a run of the real code), transitions = remote-call deliveries performed" % d_bound,
+        "rule": "A: every configuration of configs(tier) under the default schedule; B: for each sub-grid configuration and each phase (upload / download) every schedule with <= %d deviations; both again with several answers delivered per reactor turn (every third configuration; one deviation less), and the sub-grid with thread-pool completions as scheduled events (one deviation less); states = complete executions (each is a run of the real code), transitions = remote-call deliveries performed" % d_bound,
     }
     return res, cov
 
